@@ -141,22 +141,29 @@ def fold_program(pid, kind, nb, rng):
 # ------------------------------------------------------------------------------------------
 # nestings
 
-def inner_invocation(kind, v, depth_names, counter):
-    """An invocation of `kind` computing v + 21 from the expression text `v` (u64).
+def inner_invocation(kind, v, depth_names, counter, first=None):
+    """An invocation of `kind` computing v + 21 from the expression text `v` (u64) — or `first` + 20 if the initial
+    value of its first branch is given (used to nest a third macro inside it).
     Returns (expression text yielding u64 synchronously or a future of u64 if kind is async, is_async)."""
     asy = kind in ASYNC
     is_try = kind.startswith("try_")
     a = counter[0]
     counter[0] += 2
+    if first is not None:
+        v = "(%s)" % first
+        plus = ""
+    else:
+        plus = " + 1"
+    v = v + plus
     if asy:
         if is_try:
-            body = "%s! { futures::future::ok::<u64, u8>(%s + 1) |> |r| { zt(%d); r }, futures::future::ok::<u64, u8>(20) |> |r| { zt(%d); r }, map => |a, b| a + b }" % (kind, v, a, a + 1)
+            body = "%s! { futures::future::ok::<u64, u8>(%s) |> |r| { zt(%d); r }, futures::future::ok::<u64, u8>(20) |> |r| { zt(%d); r }, map => |a, b| a + b }" % (kind, v, a, a + 1)
             return "async move { %s.await.unwrap() }" % body, True
-        body = "%s! { futures::future::ready(%s + 1) |> |x| { zt(%d); x }, futures::future::ready(20u64) |> |x| { zt(%d); x }, then => |a, b| futures::future::ready(a + b) }" % (kind, v, a, a + 1)
+        body = "%s! { futures::future::ready(%s) |> |x| { zt(%d); x }, futures::future::ready(20u64) |> |x| { zt(%d); x }, then => |a, b| futures::future::ready(a + b) }" % (kind, v, a, a + 1)
         return body, True
     if is_try:
-        return "%s! { Some(%s + 1) |> |x| { zt(%d); x }, Some(20u64) |> |x| { zt(%d); x }, map => |a, b| a + b }.unwrap()" % (kind, v, a, a + 1), False
-    return "%s! { Some(%s + 1) |> |x| { zt(%d); x }, Some(20u64) |> |x| { zt(%d); x }, then => |a: Option<u64>, b: Option<u64>| a.unwrap() + b.unwrap() }" % (kind, v, a, a + 1), False
+        return "%s! { Some(%s) |> |x| { zt(%d); x }, Some(20u64) |> |x| { zt(%d); x }, map => |a, b| a + b }.unwrap()" % (kind, v, a, a + 1), False
+    return "%s! { Some(%s) |> |x| { zt(%d); x }, Some(20u64) |> |x| { zt(%d); x }, then => |a: Option<u64>, b: Option<u64>| a.unwrap() + b.unwrap() }" % (kind, v, a, a + 1), False
 
 
 def expected_names(kinds, caller="main"):
@@ -180,10 +187,18 @@ def nest_program(pid, outer, inner, position, rng, third=None):
     o_try = outer.startswith("try_")
     counter = [10]
     v = "v"
-    inner_expr, inner_is_fut = inner_invocation(inner, v, None, counter)
     if third:
-        # depth 3: the innermost replaces `v + 1` of the middle one
-        pass
+        # depth 3: the innermost macro computes the initial value of the middle macro's first branch
+        c3 = [20]
+        innermost_expr, innermost_fut = inner_invocation(third, v, None, c3)
+        if innermost_fut:
+            # inside an async middle macro the expression may simply await; inside a sync one it gets its own runtime
+            first = "%s.await" % innermost_expr if i_asy else "run_async_val(%s)" % innermost_expr
+        else:
+            first = innermost_expr
+        inner_expr, inner_is_fut = inner_invocation(inner, v, None, counter, first=first)
+    else:
+        inner_expr, inner_is_fut = inner_invocation(inner, v, None, counter)
     # value of using the inner macro on v, as a sync u64 expression
     if inner_is_fut:
         sync_use = "run_async_val(%s)" % inner_expr if not o_asy else None
@@ -250,12 +265,13 @@ def nest_program(pid, outer, inner, position, rng, third=None):
             rty = "u64"
         dsl = "%s, %s, %s" % (b0, b1, h)
     # expected value
+    inc = 41 if third else 21
     if position == "operand":
-        val = (3 + 21) + 101
+        val = (3 + inc) + 101
     elif position == "capture":
-        val = (3 + (4 + 21)) + 101
+        val = (3 + (4 + inc)) + 101
     else:
-        val = (3 + 1 + 101) + 21
+        val = (3 + 1 + 101) + inc
     if not o_asy:
         ref_val = "Some(%du64)" % val if o_try else "%du64" % val
     else:
@@ -274,8 +290,18 @@ def nest_program(pid, outer, inner, position, rng, third=None):
     for b in range(2):
         names.append("%s_join_%d" % (base, b) if i_threads else base)
     ref_names = " ".join("zn(%d, %s);" % (10 + b, rs(names[b])) for b in range(2))
+    ranges = [(10, 11), (11, 12), (1, 10)]
     tags = "nest,nest:%s,pair:%s>%s" % (position, outer, inner)
-    return pid, outer, dsl, rty, ref_val, [(10, 11), (11, 12), (1, 10)], 100, tags, ref_names, (position == "capture")
+    if third:
+        # the innermost macro is evaluated as the initial value of the middle macro's branch 0: in that branch's
+        # thread if the middle macro spawns threads (and has >1 active branch, which it has)
+        t_threads = third in ("join_spawn", "try_join_spawn", "spawn", "try_spawn")
+        base3 = "%s_join_0" % base if i_threads else base
+        names3 = ["%s_join_%d" % (base3, b) if t_threads else base3 for b in range(2)]
+        ref_names += " " + " ".join("zn(%d, %s);" % (20 + b, rs(names3[b])) for b in range(2))
+        ranges = [(10, 11), (11, 12), (20, 21), (21, 22), (1, 10)]
+        tags = "nest,nest3,nest:%s3,triple:%s>%s>%s" % (position, outer, inner, third)
+    return pid, outer, dsl, rty, ref_val, ranges, 100, tags, ref_names, (position == "capture")
 
 
 def render(entry):
@@ -335,6 +361,14 @@ def build_corpus(tier, seed):
         for position in ("operand", "capture", "handler"):
             entries.append(nest_program(pid, outer, inner, position, rng))
             pid += 1
+    # (c) depth 3: every ordered triple in operand position (thorough), a seeded sample of 72 (quick)
+    triples = list(itertools.product(ALL, repeat=3))
+    if tier == "quick":
+        rng.shuffle(triples)
+        triples = triples[:72]
+    for outer, inner, third in triples:
+        entries.append(nest_program(pid, outer, inner, "operand", rng, third=third))
+        pid += 1
     return entries
 
 
